@@ -23,6 +23,10 @@ def fixed_docs():
         R(E("a", E("a", E("a", E("b"), T("t")), E("b")), E("c", a=[A("x", ""), A("y", " ")]), T("  "), a=[A("xml:lang", "en-US", p="xml", u=xdm.XML_NS)] if False else [])),
         R(E("c", E("b", T("-2")), E("b", T("0.5")), E("b", T("abc")), E("b", T(" 4 ")), E("b"), a=[A("x", "10")])),
         R(E("c", E("a", E("a", E("b"), E("c", E("b"))), E("b")), E("b", E("a", E("b", a=[A("x", "1")]))))),   # nested same-name ancestors
+        # character data directly in front of processing instructions and comments (a parser hands the text over when the next event arrives:
+        # stored order and tree order of the two nodes must agree), next to attributes
+        R(E("a", T("alpha"), PI("t", "one"), T("beta"), C("c"), T("gamma"), PI("u", ""), E("b", T("x"), PI("t", "two"), C("k"), a=[A("x", "1")]), T("tail"), PI("t", "three"),
+            a=[A("x", "1"), A("y", "2")])),
     ]
 
 
@@ -198,6 +202,21 @@ def build_cases(rng, tier):
             ctxs = list(range(1, n + 1)) if (e["op"] == "path" and not quick) else rng.sample(range(1, n + 1), min(n, 3 if quick else 5))
             for ctx in ctxs:
                 cases.append((d + 1, ctx, 1, 1, e, {}))
+    # ORDER across node kinds: unions of text / processing-instruction / comment / attribute / element nodes, from every node of the
+    # documents that have character data directly in front of PIs and comments (a union is merged by the stored order of the nodes)
+    ch_ = lambda t, *p_: step("child", t, *p_)
+    kinds = [path([ch_(T_TEXT)]), path([ch_(t_pi())]), path([ch_(T_COMMENT)]), path([step("attribute", T_ANY)]), path([ch_(T_ANY)])]
+    order_tests = [bin_("|", a_, b_) for a_ in kinds for b_ in kinds if a_ is not b_]
+    order_tests += [bin_("|", path([step("attribute", T_ANY)]), path([ch_(T_NODE)])), bin_("|", path([ch_(T_NODE)]), path([step("attribute", T_ANY)])),
+                    filt(bin_("|", path([ch_(T_TEXT)]), path([ch_(t_pi())])), num(1)), filt(bin_("|", path([ch_(t_pi())]), path([ch_(T_TEXT)])), fn("last")),
+                    bin_("|", bin_("|", path([ch_(t_pi())]), path([ch_(T_COMMENT)])), path([ch_(T_TEXT)])),
+                    bin_("|", path([dict(DOS), ch_(T_TEXT)], abs_=True), path([dict(DOS), ch_(t_pi())], abs_=True)),
+                    bin_("|", path([dict(DOS), ch_(T_COMMENT)], abs_=True), bin_("|", path([dict(DOS), step("attribute", T_ANY)], abs_=True), path([dict(DOS), ch_(T_TEXT)], abs_=True)))]
+    for d in (0, 5):
+        for e in order_tests:
+            for ctx in range(1, flats[d]["n"] + 1):
+                if flats[d]["kind"][ctx - 1] in ("root", "elem"):
+                    cases.append((d + 1, ctx, 1, 1, e, {}))
     # namespaces: every axis x name test (unprefixed, prefixed, prefix:*, *) from every node of the namespace document
     nd = len(docs)
     nsflat = flats[nd - 1]
